@@ -640,19 +640,29 @@ Fixpoint print_attrs (ind : nat) (l : list (str * ((nat -> str) * bool * annots)
 Definition print_record (ind : nat) (l : list (str * ((nat -> str) * bool * annots))) : str :=
   [123] ++ (match l with [] => [] | _ => [10] ++ print_attrs (S ind) l ++ tabs ind end) ++ [125].
 
+(* shadowedBuiltins: the built-in type names that the schema also declares as an entity, enum or common type (in any namespace) *)
+Definition builtin_type_names : list string := ["String"; "Long"; "Bool"; "ipaddr"; "decimal"; "datetime"; "duration"]%string.
+Definition ns_declares (name : str) (n : x_ns) : bool :=
+  existsb (fun kv => str_eqb (fst kv) name) (xs_entities n) || existsb (fun kv => str_eqb (fst kv) name) (xs_enums n)
+  || existsb (fun kv => str_eqb (fst kv) name) (xs_commons n).
+Definition shadowed_builtins (m : x_schema) (name : str) : bool :=
+  existsb (fun b => str_eqb (s_of b) name) builtin_type_names && existsb (fun kv : str * x_ns => ns_declares name (snd kv)) m.
+(* writeBuiltin: a shadowed built-in name is written __cedar::Name *)
+Definition write_builtin (sh : str -> bool) (name : str) : str := (if sh name then s_of "__cedar::" else []) ++ name.
+
 (* marshalType / marshalRecordType: the attributes are rendered first (structurally), then put in key order *)
-Fixpoint print_type (t : xty) (ind : nat) : str :=
+Fixpoint print_type (sh : str -> bool) (t : xty) (ind : nat) : str :=
   match t with
-  | XString => s_of "String"
-  | XLong => s_of "Long"
-  | XBool => s_of "Bool"
-  | XExt n => n
-  | XSet e => s_of "Set<" ++ print_type e ind ++ [62]
+  | XString => write_builtin sh (s_of "String")
+  | XLong => write_builtin sh (s_of "Long")
+  | XBool => write_builtin sh (s_of "Bool")
+  | XExt n => write_builtin sh n
+  | XSet e => s_of "Set<" ++ print_type sh e ind ++ [62]
   | XRec fs =>
       print_record ind (rec_of_list ((fix go (l : xrec) : list (str * ((nat -> str) * bool * annots)) :=
                                         match l with
                                         | [] => []
-                                        | (key, (ty, opt, an)) :: r => (key, (print_type ty, opt, an)) :: go r
+                                        | (key, (ty, opt, an)) :: r => (key, (print_type sh ty, opt, an)) :: go r
                                         end) fs))
   | XEnt r => r
   | XRef r => r
@@ -675,38 +685,38 @@ Definition print_parent_ref (p : str * str) : str :=
 
 (* marshalAppliesTo; `at.Principals != nil` is "the list is not empty": a non-nil empty slice cannot be written in x_schema
    (nor built by the harness or the text parser; the JSON decoder can build one, it would print as `principal: []`) *)
-Definition print_applies (ind : nat) (a : x_applies) : str :=
+Definition print_applies (sh : str -> bool) (ind : nat) (a : x_applies) : str :=
   let parts :=
       (match xa_principals a with [] => [] | l => [tabs (S ind) ++ s_of "principal: " ++ print_list l] end)
       ++ (match xa_resources a with [] => [] | l => [tabs (S ind) ++ s_of "resource: " ++ print_list l] end)
-      ++ (match xa_context a with None => [] | Some t => [tabs (S ind) ++ s_of "context: " ++ print_type t (S ind)] end) in
+      ++ (match xa_context a with None => [] | Some t => [tabs (S ind) ++ s_of "context: " ++ print_type sh t (S ind)] end) in
   s_of " appliesTo {" ++ [10]
   ++ (fix go (l : list str) : str := match l with [] => [] | [x] => x ++ [10] | x :: r => x ++ [44; 10] ++ go r end) parts
   ++ tabs ind ++ [125].
 
 (* marshalDecls: common types, entities, enums, actions, each in key order, separated by one empty line; [first] = *first *)
-Definition print_common (ind : nat) (kv : str * x_common) : str :=
-  print_annotations ind (xc_annots (snd kv)) ++ tabs ind ++ s_of "type " ++ fst kv ++ s_of " = " ++ print_type (xc_type (snd kv)) ind ++ [59; 10].
-Definition print_entity (ind : nat) (kv : str * x_entity) : str :=
+Definition print_common (sh : str -> bool) (ind : nat) (kv : str * x_common) : str :=
+  print_annotations ind (xc_annots (snd kv)) ++ tabs ind ++ s_of "type " ++ fst kv ++ s_of " = " ++ print_type sh (xc_type (snd kv)) ind ++ [59; 10].
+Definition print_entity (sh : str -> bool) (ind : nat) (kv : str * x_entity) : str :=
   let e := snd kv in
   print_annotations ind (xe_annots e) ++ tabs ind ++ s_of "entity " ++ fst kv
   ++ (match xe_parents e with [] => [] | l => s_of " in " ++ print_list l end)
-  ++ (match xe_shape e with None => [] | Some fs => [32] ++ print_type (XRec fs) ind end)
-  ++ (match xe_tags e with None => [] | Some t => s_of " tags " ++ print_type t ind end)
+  ++ (match xe_shape e with None => [] | Some fs => [32] ++ print_type sh (XRec fs) ind end)
+  ++ (match xe_tags e with None => [] | Some t => s_of " tags " ++ print_type sh t ind end)
   ++ [59; 10].
 Definition print_enum (ind : nat) (kv : str * x_enum) : str :=
   print_annotations ind (xn_annots (snd kv)) ++ tabs ind ++ s_of "entity " ++ fst kv ++ s_of " enum ["
   ++ join_comma (map quote_cedar (xn_values (snd kv))) ++ [93; 59; 10].
-Definition print_action (ind : nat) (kv : str * x_action) : str :=
+Definition print_action (sh : str -> bool) (ind : nat) (kv : str * x_action) : str :=
   let a := snd kv in
   print_annotations ind (xac_annots a) ++ tabs ind ++ s_of "action " ++ print_name (fst kv)
   ++ (match xac_parents a with [] => [] | l => s_of " in " ++ print_list (map print_parent_ref l) end)
-  ++ (match xac_applies a with None => [] | Some ap => print_applies ind ap end)
+  ++ (match xac_applies a with None => [] | Some ap => print_applies sh ind ap end)
   ++ [59; 10].
 
-Definition decl_blocks (ind : nat) (n : x_ns) : list str :=
-  map (print_common ind) (rec_of_list (xs_commons n)) ++ map (print_entity ind) (rec_of_list (xs_entities n))
-  ++ map (print_enum ind) (rec_of_list (xs_enums n)) ++ map (print_action ind) (rec_of_list (xs_actions n)).
+Definition decl_blocks (sh : str -> bool) (ind : nat) (n : x_ns) : list str :=
+  map (print_common sh ind) (rec_of_list (xs_commons n)) ++ map (print_entity sh ind) (rec_of_list (xs_entities n))
+  ++ map (print_enum ind) (rec_of_list (xs_enums n)) ++ map (print_action sh ind) (rec_of_list (xs_actions n)).
 
 (* `if !*first { '\n' }; *first = false` in front of every block *)
 Fixpoint join_blocks (first : bool) (l : list str) : str :=
@@ -716,14 +726,15 @@ Fixpoint join_blocks (first : bool) (l : list str) : str :=
   end.
 
 (* marshalSchema, one namespace *)
-Definition print_namespace (kv : str * x_ns) : str :=
+Definition print_namespace (sh : str -> bool) (kv : str * x_ns) : str :=
   print_annotations 0 (xs_annots (snd kv)) ++ s_of "namespace " ++ fst kv ++ s_of " {" ++ [10]
-  ++ join_blocks true (decl_blocks 1 (snd kv)) ++ [125; 10].
+  ++ join_blocks true (decl_blocks sh 1 (snd kv)) ++ [125; 10].
 
 (* MarshalSchema (= Schema.MarshalCedar of NewSchemaFromAST): the bare declarations (the element named [], a later one wins,
    its annotations are not part of the AST), then the namespaces in key order *)
 Definition print_schema (s : x_schema) : str :=
   let m := rec_of_list s in
-  let bare := match rec_get [] m with Some n => decl_blocks 0 n | None => [] end in
+  let sh := shadowed_builtins m in
+  let bare := match rec_get [] m with Some n => decl_blocks sh 0 n | None => [] end in
   let nss := filter (fun kv : str * x_ns => negb (is_nil (fst kv))) m in
-  join_blocks true (bare ++ map print_namespace nss).
+  join_blocks true (bare ++ map (print_namespace sh) nss).
